@@ -49,7 +49,7 @@ val nth_error : 'a1 list -> nat -> 'a1 option
 
 val last : 'a1 list -> 'a1 -> 'a1
 
-val rev : 'a1 list -> 'a1 list
+val removelast : 'a1 list -> 'a1 list
 
 val concat : 'a1 list list -> 'a1 list
 
@@ -1009,5 +1009,7 @@ val representable : member -> bool
 val obs_tiles : (nat * nat) list option -> obs
 
 val spec_parse2 : entry -> bytes -> kv list
+
+val representable_full : member -> bool
 
 val spec_build2 : member -> kv list
